@@ -229,7 +229,16 @@ fn gen_text(rng: &mut Rng, words: &[String], max_tokens: usize) -> String {
         } else if r < 86 + dense {
             rng.pick(TAGS).to_string()
         } else if !words.is_empty() {
-            rng.pick(words).to_string()
+            // one word in six is a NEAR MISS: a foreign character (U+0000, a zero-width space, a letter) stands between two
+            // characters of the dictionary word, so the text does not contain the word - a break candidate inside it is not
+            // protected by the dictionary check
+            let wd = rng.pick(words).to_string();
+            let cs: Vec<char> = wd.chars().collect();
+            if cs.len() >= 2 && rng.chance(1, 6) {
+                let at = rng.range(1, cs.len() - 1);
+                let ins = *rng.pick(&['\0', '\0', '\u{200b}', 'x']);
+                cs[..at].iter().chain(std::iter::once(&ins)).chain(cs[at..].iter()).collect()
+            } else { wd }
         } else {
             rng.pick(KANA).to_string()
         };
